@@ -1371,13 +1371,73 @@ impl<'a> Gen<'a> {
         self.desc.push(format!("    tokens: {n_lit} literals, {n_ref} copies of which {n_deep} deep (max {max_bits} bits)"));
         (width, height, alpha_bit, Some(px))
     }
+
+    /// The "long literals" scenario: a small image whose four literal codes are all skewed (lengths 1,2,..,14,15,15) and whose pixels
+    /// prefer the long code words, so that one literal pixel needs up to 4 x 15 = 60 bits (more than one refill of the bit reservoir
+    /// guarantees: the decoder must top it up between the channels).
+    fn long_literal_stream(&mut self) -> (u32, u32, bool, Option<Vec<u32>>) {
+        let width = self.rng.range(1, 24) as u32;
+        let height = self.rng.range(1, 12) as u32;
+        let alpha_bit = self.header(width, height);
+        self.st.bump("size.long_literal_scenario");
+        self.desc.push(format!("VP8L {width}x{height} long-literal scenario"));
+        self.w.put(0, 1); // no transform
+        self.w.put(0, 1); // no colour cache
+        self.st.bump("cache_bits.main.0");
+        self.w.put(0, 1); // no meta
+        self.st.bump("meta_bits.none");
+        let skew: Vec<u8> = (1..=15u8).chain(std::iter::once(15)).collect();
+        let mut codes = vec![];
+        let mut syms: Vec<Vec<u16>> = vec![];
+        for (ci, alphabet) in [280usize, 256, 256, 256].iter().enumerate() {
+            let mut lens = vec![0u8; *alphabet];
+            let mut order = self.pick_distinct(&(0..256).collect::<Vec<u16>>(), 16);
+            // which symbols get the long words varies; green keeps literals only (no back-reference in this scenario)
+            if self.rng.chance(1, 2) { order.reverse(); }
+            for (i, &sy) in order.iter().enumerate() {
+                lens[sy as usize] = skew[i];
+            }
+            self.write_normal(&lens);
+            self.st.bump("code.normal");
+            codes.push(Code::from_lens(lens));
+            syms.push(order);
+            let _ = ci;
+        }
+        // distance code: never used, a single symbol
+        let d = self.write_code(40, &[0], "dist");
+        let _ = d;
+        let npix = (width * height) as usize;
+        let mut px = vec![0u32; npix];
+        let mut max_bits = 0u32;
+        for i in 0..npix {
+            let mut v = 0u32;
+            let mut bits = 0u32;
+            // stream order: green, red, blue, alpha
+            for (c, sh) in [(0usize, 8u32), (1, 16), (2, 0), (3, 24)] {
+                // 3 of 4 times one of the four longest words (13..15 bits)
+                let k = if self.rng.chance(3, 4) { 12 + self.rng.below(4) as usize } else { self.rng.below(16) as usize };
+                let sy = syms[c][k];
+                codes[c].emit(&mut self.w, sy);
+                bits += codes[c].bits_of(sy);
+                v |= (sy as u32) << sh;
+            }
+            max_bits = max_bits.max(bits);
+            self.st.bump(&format!("tok.long_literal_bits.{:02}", bits));
+            px[i] = v;
+        }
+        self.st.add("tok.main.literal", npix as u64);
+        self.st.max("max.literal_pixel_bits", max_bits as u64);
+        self.desc.push(format!("    tokens: {npix} literals (max {max_bits} bits per pixel)"));
+        (width, height, alpha_bit, Some(px))
+    }
 }
 
 /// Generate one stream from a sub-seed.
 pub fn generate(seed: u64, p: &Params, trace_tokens: bool) -> GenStream {
     let mut g = Gen { rng: Rng::new(seed), p, w: BitWriter::new(), st: Stats::default(), desc: vec![], trace_tokens };
     let deep = p.deep && g.rng.chance(1, 50);
-    let (width, height, alpha_bit, expected) = if deep { g.deep_stream() } else { g.stream() };
+    let long_lit = !deep && g.rng.chance(1, 25);
+    let (width, height, alpha_bit, expected) = if deep { g.deep_stream() } else if long_lit { g.long_literal_stream() } else { g.stream() };
     let filler = g.rng.byte();
     let Gen { w, st, desc, .. } = g;
     let payload = w.finish(filler);
